@@ -258,6 +258,10 @@ func (c *wcase) pluginNodes() *xnode {
 	return el("build", el("pluginManagement", el("plugins", pm)), el("plugins", plug))
 }
 
+// inheritsCoords: the local parent omits <groupId> and <version> and inherits them from a grandparent pom
+// (chosen by a layout bit so that both arrangements are exercised).
+func (c *wcase) inheritsCoords() bool { return c.Par && c.Layout.Entities }
+
 // renderPom renders the child ("child") or the parent ("par") pom; returns bytes and recorded values.
 func (c *wcase) renderPom(which string) ([]byte, map[string]string) {
 	L := &c.Layout
@@ -269,8 +273,17 @@ func (c *wcase) renderPom(which string) ([]byte, map[string]string) {
 	}
 	var head, body []*xnode
 	head = append(head, leaf("modelVersion", "4.0.0"))
-	if which == "par" {
-		head = append(head, leaf("groupId", "org.par"), leaf("artifactId", "par"), leaf("version", "1.0.0"), leaf("packaging", "pom"))
+	if which == "gp" {
+		// the grandparent of the "inherit" arrangement: nothing but coordinates
+		head = append(head, leaf("groupId", "org.par"), leaf("artifactId", "gp"), leaf("version", "1.0.0"), leaf("packaging", "pom"))
+	} else if which == "par" {
+		if c.inheritsCoords() {
+			// the usual multi-module layout: the local parent takes groupId and version from its own parent
+			head = append(head, el("parent", leaf("groupId", "org.par"), leaf("artifactId", "gp"), leaf("version", "1.0.0"), leaf("relativePath", "gp/pom.xml")),
+				leaf("artifactId", "par"), leaf("packaging", "pom"))
+		} else {
+			head = append(head, leaf("groupId", "org.par"), leaf("artifactId", "par"), leaf("version", "1.0.0"), leaf("packaging", "pom"))
+		}
 		body = c.sectionNodes("par")
 	} else {
 		if c.Par {
@@ -483,6 +496,13 @@ func runMaven(c *wcase, dir string, o *wobs, dump bool) {
 		if err := mustWrite(filepath.Join(inRoot, "pom.xml"), parent); err != nil {
 			o.Why = err.Error()
 			return
+		}
+		if c.inheritsCoords() {
+			gp, _ := c.renderPom("gp")
+			if err := mustWrite(filepath.Join(inRoot, "gp", "pom.xml"), gp); err != nil {
+				o.Why = err.Error()
+				return
+			}
 		}
 	}
 	if dump {
